@@ -134,10 +134,20 @@ def decodePacketHeader : Bits → Except Nat (NotifHeader × Bits) := fun bs =>
             | .fail _ => .error crReadHeaderExtraFail
             | .ok _ rest => .ok ({ seq := seq, ackedSeq := acked, words := w, hist := hist }, rest)
 
-/-- `packet_notify_delta_seq` -/
+/-- `packet_notify_delta_seq`: the definition translated from the C source on every run (`Gen/PureFns.lean`) -/
 def Notify.deltaSeq (n : Notify) (h : NotifHeader) : Int :=
+  packet_notify_delta_seq h.seq n.inSeq h.ackedSeq n.outAckSeq n.outSeq
+
+/-- the acceptance test of `packet_notify_delta_seq` written out by hand; `Notify.deltaSeq_eq` shows that the translated code says
+exactly this (the proof is re-checked on every run, so a change of the C condition breaks it) -/
+def Notify.deltaSeqSpec (n : Notify) (h : NotifHeader) : Int :=
   if seq_num_greater_than h.seq n.inSeq && seq_num_greater_equal h.ackedSeq n.outAckSeq && seq_num_greater_than n.outSeq h.ackedSeq
   then seq_num_diff h.seq n.inSeq else 0
+
+theorem Notify.deltaSeq_eq (n : Notify) (h : NotifHeader) : n.deltaSeq h = n.deltaSeqSpec h := by
+  unfold Notify.deltaSeq Notify.deltaSeqSpec packet_notify_delta_seq
+  cases seq_num_greater_than h.seq n.inSeq <;> cases seq_num_greater_equal h.ackedSeq n.outAckSeq <;>
+    cases seq_num_greater_than n.outSeq h.ackedSeq <;> simp
 
 /-- one step of `AddDeliveryStatus` -/
 def pushHist (hist : List Bool) (b : Bool) : List Bool := (b :: hist).take histLen
